@@ -13,6 +13,7 @@ import (
 	"go.sia.tech/core/types"
 	rhp "go.sia.tech/coreutils/rhp/v4"
 
+	"verif/harness/lab/rhplab"
 	"verif/harness/mon"
 )
 
@@ -128,6 +129,14 @@ func c15Concurrent(r *mon.Run, k int) error {
 					amt := []types.Currency{readCost, readCost.Sub(one), readCost.Add(one), verifyCost, verifyCost.Sub(one), one, readCost.Mul64(2)}[rng.IntN(7)]
 					call := clock.Add(1)
 					res, err := rhp.RPCFundAccounts(ctxBG(), cl, c.cs, c.signer(), contract, []proto4.AccountDeposit{{Account: acct, Amount: amt}})
+					// the host releases the contract lock only after answering: wait
+					// for this client's own handler before its next RPC
+					if werr := cl.WaitLast(rhplab.Watchdog); werr != nil {
+						mu.Lock()
+						unexpected = append(unexpected, "handler barrier: "+werr.Error())
+						mu.Unlock()
+						return
+					}
 					if err != nil {
 						mu.Lock()
 						unexpected = append(unexpected, "fund: "+err.Error())
